@@ -219,6 +219,13 @@ def check_table(ctx, tu, info):
                 cons = f.nodes[news[0]].get('construct')
                 srcs = {f.decl(d).get('id') for d in ([cons] + f.descendants(cons) if cons else []) if f.nodes[d]['cls'] == 'DeclRefExpr' and f.decl(d)['kind'] == 'parm'}
                 ok = ok and srcs == {f.params[0]['id']}
+                # the source is handed to the constructor as an unconditional rvalue (std::move / static_cast<T&&>), so that the
+                # move constructor is selected whenever there is one
+                movers = [d for d in ([cons] + f.descendants(cons) if cons else []) if f.nodes[d]['cls'] == 'CallExpr' and f.callee(d)]
+                mk = [short(f.callee(d)['key']) for d in movers]
+                casts = [d for d in ([cons] + f.descendants(cons) if cons else []) if f.nodes[d]['cls'] == 'CXXStaticCastExpr' and f.nodes[d].get('vk') == 'x']
+                ok = ok and (mk == ['std::move'] or (not mk and len(casts) == 1))
+                ctor = f.callee(f.strip_all_casts(cons)) if cons and f.is_construct(f.strip_all_casts(cons)) else None
             ctx.ob('C17.A4', f, 'the table\'s move entry move-constructs a T in the destination buffer from the source object', ok, key_detail='move entry')
         elif f.skey == 'anydata_internal_::doGetAnyDataFunctions':
             refs = [f.decl(d).get('q', '') for d in f.nodes if f.nodes[d]['cls'] == 'DeclRefExpr' and f.decl(d)['kind'] == 'func']
